@@ -101,3 +101,13 @@ Theorem C11_parse_from_source : forall e,
   option_map entry_pair (gen_parse_syslog_message e) = Some (Syslog.parse e).
 Proof. exact parse_syslog_from_source_pair. Qed.
 Print Assumptions C11_parse_from_source.
+
+(* ---------- the regular-expression guard (group R; statements and their reading in Props/C06.v, C06_regex_…) ----------
+   "No guard matches" is not an artefact of the matcher: a guard of the dispatch table answers false exactly when the
+   pattern has NO parse at ANY offset of the line (declarative semantics of Model/RegexSpec.v), for every item list
+   and every line. *)
+From AM Require Import Model.RegexSpec Proofs.RegexSpecLemmas.
+Theorem C11_regex_guard_false_iff : forall its line,
+  matches its line = false <-> forall p ls e pcs, ~ Match its line p ls e pcs.
+Proof. exact matches_false_iff. Qed.
+Print Assumptions C11_regex_guard_false_iff.
